@@ -101,4 +101,20 @@ theorem clip_extend_idem (fwd : Bool) (start stop len size : Int) (h0 : 0 ≤ si
     · simp only [Bool.false_eq_true, ↓reduceIte]
     · simp only [↓reduceIte]
 
+/-- **total form of `clip_inside`**: the clipped interval is a well-formed interval inside the contig exactly when the
+input meets the contig; an interval entirely beyond the end (or before 0) comes out inverted -/
+theorem clip_inside_iff (start stop size : Int) (h0 : 0 ≤ size) :
+    (0 ≤ Gen.C08.clipStart start stop size ∧ Gen.C08.clipStart start stop size ≤ Gen.C08.clipStop start stop size ∧
+      Gen.C08.clipStop start stop size ≤ size) ↔ (start ≤ stop ∧ start ≤ size ∧ 0 ≤ stop) := by
+  simp only [Gen.C08.clipStart, Gen.C08.clipStop]; omega
+
+/-- the excluded region is real: an interval beyond the contig end is NOT brought inside (also on the real code:
+`clip((7,9), 5)` gives `(7,5)`); the check's domain for `clip` is "the interval meets the contig" -/
+theorem clip_outside_not_inside : clipK 12 15 10 = (12, 10) ∧ clipK (-5) (-2) 10 = (0, -2) := by decide
+
+/-- every kernel in `Gen/C08.lean` was obtained by tracing the real function: when the tracer fails, `regenerate()`
+writes the hand-written expression with the flag `false`, and this obligation breaks -/
+theorem all_traced : Gen.C08.clipTraced = true ∧ Gen.C08.geoClipTraced = true ∧ Gen.C08.extTraced = true ∧
+    Gen.C08.geoExtTraced = true := by decide
+
 end C08
